@@ -67,7 +67,11 @@ def make(v, variant=None):
                  lambda: _used(_used(MeshPatt(P, R)).reverse()).reverse(),
                  lambda: _used(_used(_used(MeshPatt(P, R)).rotate(1)).rotate(2)).rotate(1),
                  lambda: _used(_used(MeshPatt(P, R)).inverse()).inverse() if len(R) % 2 else _used(_used(MeshPatt(P, R)).complement()).complement(),
-                 lambda: _used(MeshPatt(P, R[1:])).shade(R[0]) if R else MeshPatt(P)]
+                 lambda: _used(MeshPatt(P, R[1:])).shade(R[0]) if R else MeshPatt(P),
+                 # cells the used parent already shades are shaded again (alone, and together with the missing ones)
+                 lambda: _used(MeshPatt(P, R)).shade(*R[:2]) if R else _used(MeshPatt(P)).shade(),
+                 lambda: _used(MeshPatt(P, R[: max(1, len(R) - 1)])).shade(*R) if R else MeshPatt(P),
+                 lambda: _used(_used(MeshPatt(P, R[:1])).shade(*R[:1])).shade(*reversed(R)) if R else MeshPatt(P)]
         return forms[f % len(forms)]()
     if k == "BivincularPatt":
         m = BivincularPatt(Perm(v["p"]), _req(v["cols"], f), _req(v["rows"], f + 1))
@@ -355,15 +359,15 @@ def big_universe(rnd, quick):
         p = util.rand_perm(rnd, k)
         cells = [(x, y) for x in range(k + 1) for y in range(k + 1)]
         R = sorted(c for c in cells if rnd.random() < rnd.choice([0.5, 0.8]))
-        vals.append(V("MeshPatt", p, R, variant=rnd.randrange(15)))
-        vals.append(V("MeshPatt", p, R, variant=rnd.randrange(15)))          # the same value written differently
-        vals.append(V("MeshPatt", p, R[: len(R) // 2], variant=rnd.randrange(15)))   # sorted shading is a proper prefix
-        vals.append(V("MeshPatt", p, R[1:], variant=rnd.randrange(15)))
-        vals.append(V("MeshPatt", p, cells, variant=rnd.randrange(15)))
+        vals.append(V("MeshPatt", p, R, variant=rnd.randrange(18)))
+        vals.append(V("MeshPatt", p, R, variant=rnd.randrange(18)))          # the same value written differently
+        vals.append(V("MeshPatt", p, R[: len(R) // 2], variant=rnd.randrange(18)))   # sorted shading is a proper prefix
+        vals.append(V("MeshPatt", p, R[1:], variant=rnd.randrange(18)))
+        vals.append(V("MeshPatt", p, cells, variant=rnd.randrange(18)))
         cols = [x for x in range(k + 1) if rnd.random() < 0.5]
         rows = [y for y in range(k + 1) if rnd.random() < 0.3]
         Rb = full(k, cols, rows)
-        vals.append(V("MeshPatt", p, Rb, variant=rnd.randrange(15)))
+        vals.append(V("MeshPatt", p, Rb, variant=rnd.randrange(18)))
         vals.append(V("BivincularPatt", p, Rb, cols, rows, variant=rnd.randrange(7)))
         vals.append(V("BivincularPatt", p, Rb, cols, rows, variant=rnd.randrange(7)))
         vals.append(V("VincularPatt", p, full(k, cols, []), cols, [], variant=rnd.randrange(7)))
